@@ -41,15 +41,25 @@ def check(cx):
     r1.instance('new_on_user_join literal')
     okv = bool(v) and v[0] == 'adt' and v[1].endswith('structs::Channel')
     d = dict(v[3]) if okv else {}
-    members = [e for e in wn.events if e.kind == 'local_mut' and e.data['method'] == 'insert']
+    # the member map of the new channel, however it is written: a fresh map with inserts, or `HashMap::from([(k, v), ..])`
+    users_v = d.get('users', ('x',))
+    members = None
+    if users_v[0] == 'local':
+        members = [(e.data['args'][0], e.data['args'][1], e.pc) for e in wn.events if e.kind == 'local_mut' and e.data['local'] == users_v
+                   and e.data['method'] == 'insert']
+        if any(e.kind == 'local_mut' and e.data['local'] == users_v and e.data['method'] not in ('insert', 'init', 'reserve') for e in wn.events):
+            members = None
+    elif users_v[0] == 'array' and all(isinstance(t_, tuple) and t_[:1] == ('tuple',) and len(t_) == 3 for t_ in users_v[1:]):
+        members = [(t_[1], t_[2], T) for t_ in users_v[1:]]
+    elif users_v[0] == 'fresh':
+        members = []
     if okv:
         okv = (d.get('topic') == ('none',) and sym.as_formula(d.get('preconfigured')) == F
                and d.get('ban_info', ('x',))[0] == 'fresh'
                and d.get('modes') == ('call', cx.fn('new_for_channel'), UN)
                and isinstance(d.get('default_modes'), tuple) and d['default_modes'][0] == 'call' and d['default_modes'][1].endswith('default')
-               and d.get('users', ('x',))[0] == 'local'
-               and len(members) == 1 and members[0].data['args'][0] == UN
-               and members[0].data['args'][1] == ('call', cx.fn('new_for_created_channel')))
+               and members is not None and len(members) == 1 and members[0][0] == UN and members[0][2] == T
+               and members[0][1] == ('call', cx.fn('new_for_created_channel')))
     if not okv:
         r1.violation('Channel::new_on_user_join|shape', 'a user-created channel is not {members: {creator}, no topic, fresh modes/lists for the '
                      'creator, not preconfigured}', loc=fnew)
